@@ -3,7 +3,7 @@
 // dispatches and queue operations.  Reads ObjGen.tla cover scripts, records NDJSON for TraceObj.tla.
 //   W_KIND      0 EventQueue + MixinFilter | 1 EventDispatcher + MixinFilter | 2 HeterEventQueue | 3 HeterEventDispatcher + MixinHeterFilter
 //               4 HeterCallbackList (no event key, no filters)
-//   W_THREADING 0 SingleThreading | 1 MultipleThreading | 2 GeneralThreading<SpinLock>
+//   W_THREADING 0 SingleThreading | 1 MultipleThreading | 2 GeneralThreading<SpinLock> | 3 tracked mutex / atomic / condvar
 //   W_FILL      byte pattern the storage holds before each construction
 // Channels: homogeneous kinds use event keys 1 and 2; heterogeneous kinds use one key and the prototypes (const PA &) and (const PB &).
 #include "common.h"
@@ -73,6 +73,8 @@ struct Pol
 	using Threading = eventpp::SingleThreading;
 #elif W_THREADING == 1
 	using Threading = eventpp::MultipleThreading;
+#elif W_THREADING == 3
+	using Threading = eventpp::GeneralThreading<vf::TrackedMutex, vf::TrackedAtomic, vf::TrackedCondVar>;
 #else
 	using Threading = eventpp::GeneralThreading<eventpp::SpinLock>;
 #endif
@@ -98,6 +100,8 @@ struct PolL {
 	using Threading = eventpp::SingleThreading;
 #elif W_THREADING == 1
 	using Threading = eventpp::MultipleThreading;
+#elif W_THREADING == 3
+	using Threading = eventpp::GeneralThreading<vf::TrackedMutex, vf::TrackedAtomic, vf::TrackedCondVar>;
 #else
 	using Threading = eventpp::GeneralThreading<eventpp::SpinLock>;
 #endif
